@@ -460,7 +460,21 @@ func checkC09(w *SketchWorld, slot int) (fails []mc.Fail) {
 			fail("C09.round-trip", "the rebuilt mapping is not equal to the original")
 			return
 		}
+		if !proto.Equal(dec.IndexMapping.ToProto(), sl.P.IndexMapping.ToProto()) {
+			fail("C09.round-trip", "the rebuilt mapping %v is not bit for bit the original %v", dec.IndexMapping.ToProto(), sl.P.IndexMapping.ToProto())
+			return
+		}
 		mc.Count("proto_round_trips", 1)
+	}
+	// a message whose mapping differs by a few ulps, rebuilt right after this one,
+	// must come back with its own parameters (nothing may be remembered between calls)
+	nb := proto.Clone(&back).(*sketchpb.DDSketch)
+	nb.Mapping.Gamma = math.Nextafter(math.Nextafter(nb.Mapping.Gamma, 2), 2)
+	nb.Mapping.IndexOffset = math.Nextafter(nb.Mapping.IndexOffset, math.Inf(1))
+	if dec, err := ddsketch.FromProtoWithStoreProvider(nb, sl.Store.Provider()); err != nil {
+		fail("C09.round-trip", "FromProto of a neighbouring mapping failed: %v", err)
+	} else if !proto.Equal(dec.IndexMapping.ToProto(), nb.Mapping) {
+		fail("C09.round-trip", "a message with mapping %v, rebuilt right after one with mapping %v, came back with mapping %v", nb.Mapping, back.Mapping, dec.IndexMapping.ToProto())
 	}
 	var stream bytes.Buffer
 	sl.P.EncodeProto(&stream)
@@ -812,7 +826,7 @@ func handBuiltProtoShard() mc.Shard {
 	run := func() (*mc.Result, []mc.Fail) {
 		res := &mc.Result{Scenario: name, Property: "C09", Exhaustive: true}
 		var fails []mc.Fail
-		weights := []float64{0.5, 1, 0.1, 1e300, 3}
+		weights := []float64{0.5, 0, 1, 0.1, 0, 1e300, 3} // zeros: leading, inner and trailing empty bins of a contiguous run
 		keysets := [][]int32{{}, {-33}, {0}, {5}, {-33, 0}, {0, 5}, {-33, 0, 5}}
 		offsets := []int32{-1, 0, 4}
 		m, _ := mapping.NewLogarithmicMapping(0.02)
@@ -830,12 +844,16 @@ func handBuiltProtoShard() mc.Shard {
 							for i, k := range ks {
 								c := weights[(wi+i)%len(weights)]
 								st.BinCounts[k] = c
-								exp[int(k)] += c
+								if c != 0 {
+									exp[int(k)] += c
+								}
 							}
 							for i := 0; i < n; i++ {
 								c := weights[(wj+i)%len(weights)]
 								st.ContiguousBinCounts = append(st.ContiguousBinCounts, c)
-								exp[int(off)+i] += c
+								if c != 0 {
+									exp[int(off)+i] += c
+								}
 							}
 							msg := &sketchpb.DDSketch{Mapping: m.ToProto(), PositiveValues: st, NegativeValues: st, ZeroCount: 0.5}
 							raw, _ := proto.Marshal(msg)
